@@ -1043,7 +1043,7 @@ func c01diff(a, b map[string]string) (string, string) {
 	return c01kind(k), fmt.Sprintf("%d observations differ; first: %s: before %s, after %s", len(ks), k, c01q(a[k]), c01q(b[k]))
 }
 
-// flags: bit0-1 save method, bit2 start from a saved+reopened file, bit3 save in the middle and continue on the same handle
+// flags: bit0-1 save method, bit2 start from a saved+reopened file (bit4: reopened with a small UnzipXMLSizeLimit), bit3 save in the middle and continue on the same handle
 // c01runHist returns ("", "") or (signature, description); when rec is set it also emits hcycle lines and statistics.
 func c01runHist(r *Run, seed uint64, idx, nops, flags int, rec bool) (sig, what string, log []string) {
 	rng := NewRng(seed*1000003 + uint64(idx)*7919 + 17)
@@ -1059,13 +1059,26 @@ func c01runHist(r *Run, seed uint64, idx, nops, flags int, rec bool) (sig, what 
 	how := flags & 3
 	for i := 0; i < nops; i++ {
 		if flags&4 != 0 && i == nops/3 {
-			g, err := c01save(h.f, how+1)
+			var g *xl.File
+			var err error
+			if flags&16 != 0 {
+				// open with a small UnzipXMLSizeLimit: larger parts (worksheets, shared strings) are
+				// unzipped to temporary files and only decoded when an operation touches them
+				lim := int64([]int{1024, 600, 4096}[idx%3])
+				var b *bytes.Buffer
+				if b, err = h.f.WriteToBuffer(); err == nil {
+					g, err = xl.OpenReader(bytes.NewReader(b.Bytes()), xl.Options{UnzipXMLSizeLimit: lim})
+				}
+				h.log = append(h.log, fmt.Sprintf("# WriteToBuffer + OpenReader(UnzipXMLSizeLimit=%d), continue on the opened file", lim))
+			} else {
+				g, err = c01save(h.f, how+1)
+				h.log = append(h.log, "# save + open, continue on the opened file")
+			}
 			if err != nil {
 				return "hist:save-error", "save/open in the middle of the history failed: " + err.Error(), h.log
 			}
 			h.f.Close()
 			h.f = g
-			h.log = append(h.log, "# save + open, continue on the opened file")
 		}
 		if flags&8 != 0 && i == (2*nops)/3 {
 			if _, err := h.f.WriteToBuffer(); err != nil {
@@ -1292,6 +1305,9 @@ func runC01(r *Run, rng *Rng, replay string) {
 		flags := i & 3
 		if i%3 == 1 {
 			flags |= 4
+			if i%2 == 1 {
+				flags |= 16
+			}
 		}
 		c01history(r, r.Seed, i, nops, flags)
 	}
